@@ -68,4 +68,7 @@ def run(ctx):
         fam.random(cases=120, steps=250)
         fam.defect_model("c17-asis-errno", STRUCT, "FixErrno", ["ErrnoCarried"])
         fam.defect_model("c17-asis-dangling", STRUCT, "FixDangling", ["MutationsMirror", "FailedCreateRemoveChangesNothing"])
+    # set-uid / set-gid in permission changes and creates (9P2000.u: part of the mode; plain 9P2000: not there), against a twin
+    srep = ctx.go_engine("ufstree", "TestSetid", timeout=300, name="setid")
+    fam.evals += srep.get("stats", {}).get("steps_executed", 0)
     return fam.finish(RULE)
